@@ -9,7 +9,7 @@ the stacking constructor, fits whose GLAM step fails and writes which hit an I/O
 splinetable<CountingAlloc> built from the working tree, every position of one injected std::bad_alloc and every
 stage of a failing read; after every call the result, the allocator event sequence, the abstract state of every
 object and the ledger totals must equal what `psvdriver C20` (the same Lean definitions) computes.
-PSV_C20_CFG=head (default: /repo as it is) | repaired (a tree which also has fixes/C20-13..15) selects the configuration
+PSV_C20_CFG=repaired (default: /repo with fixes C20-13..16, as it is now) | head (a tree without them) selects the configuration
 on both sides.
 Oracle (independent of the model): ownership invariant on the real pointers, failed call => content digest
 unchanged or object empty, moved-from object empty, no bad release, ledger empty at the end, no sanitizer /
@@ -21,7 +21,7 @@ OPNAMES = {"C": "construct", "F": "construct_from_file", "R": "read_fits", "M": 
            "K": "remove_key", "G": "read_key", "V": "convolve", "P": "permuteDimensions", "X": "move_construct",
            "A": "move_assign", "E": "operator==", "O": "write_fits", "Q": "write_fits_mem", "D": "destroy", "Z": "destroy_all",
            "Y": "construct_by_stacking"}
-CFG = os.environ.get("PSV_C20_CFG", "head")
+CFG = os.environ.get("PSV_C20_CFG", "repaired")
 # base signatures which are a class of their own (not refined by the tags of a shrunk history)
 STABLE = {"construct_by_stacking:no-extents", "construct_by_stacking:crash:unusable-arguments", "construct_by_stacking:alloc-failure-leak",
           "permuteDimensions:crash:null-extents-after-stacking", "convolve:crash:null-extents-after-stacking",
